@@ -1,5 +1,5 @@
-(* PV.C17.Refuted — counter-models: one per guard conjunct that exists because the CODE fails
-   (open findings C17-STATIC-KEY, C17-STATIC-CALLABLE-TUPLE); regression examples of the repaired
+(* PV.C17.Refuted — counter-models: one per guard conjunct that exists because the CODE fails: none left.
+   Regression examples of the repaired findings C17-STATIC-KEY, C17-STATIC-CALLABLE-TUPLE (/repo d3e6e19) and
    C17-CONTEXT-REORDERS-PREDECESSORS (/repo 4400919). *)
 From Coq Require Import List Bool PArith Arith.
 From PV Require Import Base.PyData C17.Model C17.Check.
@@ -13,47 +13,51 @@ Definition the_val (r : result) : sval := match r with ROk v => v | _ => SAtom 1
 Ltac crunch := repeat (split; [vm_compute; reflexivity|]); vm_compute; reflexivity.
 Definition s_xyz : sval := SStr 7%positive.
 
-(* ---- 1. a static input equal to the string 'results' ------------------------------------------- *)
-(* Task('a', f1, 'results') -> Task('b', f2) *)
+(* ---- 1. (repaired in /repo d3e6e19, finding C17-STATIC-KEY) a static input equal to 'results' ----------- *)
+(* Task('a', f1, 'results') -> Task('b', f2): formerly "Cycle detected" *)
 Definition k_a : task := mkTask 1 1 1 [SStr results] false.
 Definition k_b : task := mkTask 2 2 2 [] false.
 Definition k_wf : tgraph := workflow_of (add_task (add_task g_empty k_a []) k_b [k_a]).
 
-Theorem static_key_collision_refuted :
-  exists (g : tgraph) (ids : task -> positive) (d : dsk) (v : sval),
-    g_static_nokey g ids = false /\
-    g_keys_fresh g ids = true /\ g_static_nocall g = true /\ output_tasks g = [k_b] /\
-    length (topo_order g) = length (nodes g) /\ as_dask_dict g ids = Some d /\
-    ref_get fam_apply g = ROk v /\ dask_get fam_apply d results = RCycle.
-Proof.
-  exists k_wf, r_ids, (the_dict k_wf r_ids), (the_val (ref_get fam_apply k_wf)). crunch.
-Qed.
+Example static_key_fixed :
+  g_static_nokey k_wf r_ids = false /\
+  as_dask_dict k_wf r_ids = Some [(11%positive, STuple [SFun 1; STuple [SLit (SStr results)]]);
+                                  (results, STuple [SFun 2; SStr 11])] /\
+  dask_get fam_apply (the_dict k_wf r_ids) results = ROk (STuple [SAtom 2; STuple [SAtom 1; SStr results]]) /\
+  ref_get fam_apply k_wf = dask_get fam_apply (the_dict k_wf r_ids) results /\
+  execute fam_apply k_wf (SAtom 1000) 100 r_ids = ROk (STuple [SAtom 2; STuple [SAtom 1; SStr results]]).
+Proof. crunch. Qed.
 
-(* the same through execute_workflow *)
-Theorem static_key_execute_refuted :
-  exists (g : tgraph) (ctx : sval) (ids : task -> positive),
-    g_static_nokey (exec_prepare g ctx 100) ids = false /\ execute fam_apply g ctx 100 ids = RCycle.
-Proof. exists k_wf, (SAtom 1000), r_ids. crunch. Qed.
+(* the same string inside a tuple, a list and a dict value: quoted as a whole *)
+Definition k_a2 : task :=
+  mkTask 1 1 1 [STuple [SAtom 1001; SList [SStr results]]; SDict [SStr 8] [SStr results]; SStr 7] false.
+Definition k_wf2 : tgraph := workflow_of (add_task (add_task g_empty k_a2 []) k_b [k_a2]).
+Example static_key_nested_fixed :
+  map (quote [11; results]%positive) (tinputs k_a2) =
+    [STuple [SLit (STuple [SAtom 1001; SList [SStr results]])]; STuple [SLit (SDict [SStr 8] [SStr results])]; SStr 7] /\
+  dask_get fam_apply (the_dict k_wf2 r_ids) results = ref_get fam_apply k_wf2 /\
+  (exists v, ref_get fam_apply k_wf2 = ROk v).
+Proof. split; [vm_compute; reflexivity|]. split; [vm_compute; reflexivity|]. eexists. vm_compute. reflexivity. Qed.
 
-(* ---- 2. a static tuple whose first element is callable -------------------------------------------- *)
-(* Task('a', f1, (f2, 'xyz')) -> Task('b', f3): f1 receives f2('xyz'), and f2 is called *)
+(* ---- 2. (repaired in /repo d3e6e19, finding C17-STATIC-CALLABLE-TUPLE) a callable-headed static tuple ---- *)
+(* Task('a', f1, (f2, 'xyz')) -> Task('b', f3): formerly f1 received f2('xyz') and f2 was called *)
 Definition c_a : task := mkTask 1 1 1 [STuple [SFun 2; s_xyz]] false.
 Definition c_b : task := mkTask 2 2 3 [] false.
 Definition c_wf : tgraph := workflow_of (add_task (add_task g_empty c_a []) c_b [c_a]).
 
-Theorem static_callable_tuple_refuted :
-  exists (g : tgraph) (ids : task -> positive) (d : dsk),
-    g_static_nocall g = false /\
-    g_keys_fresh g ids = true /\ g_static_nokey g ids = true /\ output_tasks g = [c_b] /\
-    length (topo_order g) = length (nodes g) /\ as_dask_dict g ids = Some d /\
-    ref_get fam_apply g = ROk (STuple [SAtom 3; STuple [SAtom 1; STuple [SFun 2; s_xyz]]]) /\
-    dask_get_log fam_apply d results =
-      (ROk (STuple [SAtom 3; STuple [SAtom 1; STuple [SAtom 2; s_xyz]]]),
-       [(2%positive, [s_xyz]); (1%positive, [STuple [SAtom 2; s_xyz]]);
-        (3%positive, [STuple [SAtom 1; STuple [SAtom 2; s_xyz]]])]).
-Proof.
-  exists c_wf, r_ids, (the_dict c_wf r_ids). crunch.
-Qed.
+Example static_callable_tuple_fixed :
+  g_static_nocall c_wf = false /\
+  ref_get fam_apply c_wf = ROk (STuple [SAtom 3; STuple [SAtom 1; STuple [SFun 2; s_xyz]]]) /\
+  dask_get_log fam_apply (the_dict c_wf r_ids) results =
+    (ROk (STuple [SAtom 3; STuple [SAtom 1; STuple [SFun 2; s_xyz]]]),
+     [(1%positive, [STuple [SFun 2; s_xyz]]); (3%positive, [STuple [SAtom 1; STuple [SFun 2; s_xyz]]])]).
+Proof. crunch. Qed.
+
+(* what the unquoted entry would do (the evaluator on the former dict): f2 is called, f1 gets its result *)
+Example unquoted_callable_tuple_is_evaluated :
+  eval_arg fam_apply [11; results]%positive (fun _ => dflt_sval) (STuple [SFun 1; STuple [SFun 2; s_xyz]]) =
+    (STuple [SAtom 1; STuple [SAtom 2; s_xyz]], [(2%positive, [s_xyz]); (1%positive, [STuple [SAtom 2; s_xyz]])]).
+Proof. vm_compute. reflexivity. Qed.
 
 (* ---- 3. (repaired in /repo 4400919, finding C17-CONTEXT-REORDERS-PREDECESSORS) ---------------------- *)
 (* a(context), b(), c with predecessors a, b entered in that order: formerly c received (B, A) because the
